@@ -12,12 +12,12 @@ here, validated against the real `onnx_ir` by the harness on every run, never pr
 namespace OV.Props.C15
 open OV.C15
 
-variable {P I : Type}
+variable {P I W : Type}
 
 /-- Frame contract on the IR transformation of API `f` (A-ir + the passes of `/repo`): a carrier outside
 `touches f` serialises to the same content after the transformation as before it. -/
-def FrameOK (s : Serde P I) (T : Api → Rec I → Rec I) (f : Api) : Prop :=
-  ∀ (m : Rec I) (c : Carrier), touches f c = false → s.ser (T f m) c = s.ser m c
+def FrameOK (s : Serde P I) (T : Api → Opts W → Rec I → Rec I) (f : Api) : Prop :=
+  ∀ (o : Opts W) (m : Rec I) (c : Carrier), touches f c = false → s.ser (T f o m) c = s.ser m c
 
 /-- The serde contract (A-ir), per carrier: `N` is idempotent and whatever is populated in `M`
 reappears in `N M` (`Incl a b` = "`b` holds every populated field of `a` with the same value; only
@@ -26,54 +26,70 @@ structure SerdeContract (s : Serde P I) (Incl : P → P → Prop) : Prop where
   idem : ∀ M, s.N (s.N M) = s.N M
   incl : ∀ M c, Incl (M c) (s.N M c)
 
+/-! ## 0. Options reach the IR-level implementation alike on both entries -/
+
+/-- Both entries of every API hand each parameter the same caller option … -/
+theorem options_routed_alike (f : Api) (k : OptKey) : route f .proto k = route f .ir k := by
+  cases f <;> cases k <;> rfl
+
+/-- … namely the option of that name (nothing is dropped, swapped or defaulted on the way). -/
+theorem options_forwarded_unchanged (f : Api) (e : Entry) (o : Opts W) : forward f e o = o := by
+  funext k; cases f <;> cases e <;> cases k <;> rfl
+
 /-! ## 1. proto(f)(M) = ser(ir(f)(de M)) -/
 
 /-- **Whole-model wrappers** (`optimize`, `fold_constants`, `remove_unused_nodes`,
 `remove_unused_functions`, `rewrite` with rules, `replace_functions`): for every serde, every
-transformation and every model, the model produced through the proto entry *is* the serialisation of the
-model produced through the IR entry on the deserialised input — no carrier is dropped, kept back or
-taken from anywhere else. -/
-theorem proto_eq_ir (s : Serde P I) (T : Api → Rec I → Rec I) (f : Api) (hf : f.wholesale = true)
-    (M : Rec P) :
-    (protoPath s T f M).result = s.ser ((irPath T f (s.de M)).result) := by
+transformation, every model **and every option tuple given identically to both entries**, the model
+produced through the proto entry *is* the serialisation of the model produced through the IR entry on the
+deserialised input — no carrier is dropped, kept back or taken from anywhere else, and the transformation
+runs under the same options (`route`). -/
+theorem proto_eq_ir (s : Serde P I) (T : Api → Opts W → Rec I → Rec I) (o : Opts W) (f : Api)
+    (hf : f.wholesale = true) (M : Rec P) :
+    (protoPath s T f o M).result = s.ser ((irPath T f o (s.de M)).result) := by
+  have h : forward f .proto o = forward f .ir o := by
+    rw [options_forwarded_unchanged, options_forwarded_unchanged]
   cases f with
-  | rewrite e => cases e <;> first | rfl | simp [Api.wholesale] at hf
+  | rewrite e =>
+    cases e
+    · simp only [protoPath, irPath, Outcome.result, h]
+    · simp [Api.wholesale] at hf
   | convertVersion => simp [Api.wholesale] at hf
-  | _ => rfl
+  | _ => simp only [protoPath, irPath, Outcome.result, h]
 
 example : Api.optimize.wholesale = true ∧ (Api.rewrite false).wholesale = true := by decide
 
 /-- `rewrite(model, [])` hands back the very object it was given, on both entries, untouched. -/
-theorem rewrite_empty_returns_argument (s : Serde P I) (T : Api → Rec I → Rec I) (M : Rec P) (m : Rec I) :
-    (protoPath s T (.rewrite true) M).argAfter = M ∧ (protoPath s T (.rewrite true) M).result = M ∧
-    (irPath T (.rewrite true) m).argAfter = m ∧ (irPath T (.rewrite true) m).result = m ∧
-    showRet (protoPath s T (.rewrite true) M).ret = "arg" ∧ showRet (irPath T (.rewrite true) m).ret = "arg" :=
+theorem rewrite_empty_returns_argument (s : Serde P I) (T : Api → Opts W → Rec I → Rec I) (o : Opts W) (M : Rec P) (m : Rec I) :
+    (protoPath s T (.rewrite true) o M).argAfter = M ∧ (protoPath s T (.rewrite true) o M).result = M ∧
+    (irPath T (.rewrite true) o m).argAfter = m ∧ (irPath T (.rewrite true) o m).result = m ∧
+    showRet (protoPath s T (.rewrite true) o M).ret = "arg" ∧ showRet (irPath T (.rewrite true) o m).ret = "arg" :=
   ⟨rfl, rfl, rfl, rfl, rfl, rfl⟩
 
 /-- Because no serde happens on the empty-rule path, the proto result equals the serialised IR result
 exactly when the input is already normal … -/
-theorem rewrite_empty_agree_iff (s : Serde P I) (T : Api → Rec I → Rec I) (M : Rec P) :
-    (protoPath s T (.rewrite true) M).result = s.ser ((irPath T (.rewrite true) (s.de M)).result)
+theorem rewrite_empty_agree_iff (s : Serde P I) (T : Api → Opts W → Rec I → Rec I) (o : Opts W) (M : Rec P) :
+    (protoPath s T (.rewrite true) o M).result = s.ser ((irPath T (.rewrite true) o (s.de M)).result)
       ↔ M = s.N M := Iff.rfl
 
 /-- … and in general the two agree up to one application of the normaliser. -/
-theorem rewrite_empty_agree_modN (s : Serde P I) (T : Api → Rec I → Rec I) (M : Rec P) :
-    s.N (protoPath s T (.rewrite true) M).result = s.ser ((irPath T (.rewrite true) (s.de M)).result) := rfl
+theorem rewrite_empty_agree_modN (s : Serde P I) (T : Api → Opts W → Rec I → Rec I) (o : Opts W) (M : Rec P) :
+    s.N (protoPath s T (.rewrite true) o M).result = s.ser ((irPath T (.rewrite true) o (s.de M)).result) := rfl
 
 /-- On an input that went through serde once, they agree exactly (uses idempotence of `N`). -/
-theorem rewrite_empty_agree_on_normalised (s : Serde P I) (T : Api → Rec I → Rec I) {Incl : P → P → Prop}
+theorem rewrite_empty_agree_on_normalised (s : Serde P I) (T : Api → Opts W → Rec I → Rec I) (o : Opts W) {Incl : P → P → Prop}
     (hc : SerdeContract s Incl) (M : Rec P) :
-    (protoPath s T (.rewrite true) (s.N M)).result
-      = s.ser ((irPath T (.rewrite true) (s.de (s.N M))).result) :=
+    (protoPath s T (.rewrite true) o (s.N M)).result
+      = s.ser ((irPath T (.rewrite true) o (s.de (s.N M))).result) :=
   (hc.idem M).symm
 
 /-- The unconditional statement is false: a serde whose normaliser changes anything separates them
 (real counterpart: a proto with `producer_name` explicitly set to `""`, which `N` drops). -/
 theorem rewrite_empty_full_refuted :
-    ¬ (∀ (s : Serde Bool Bool) (T : Api → Rec Bool → Rec Bool) (M : Rec Bool),
-        (protoPath s T (.rewrite true) M).result = s.ser ((irPath T (.rewrite true) (s.de M)).result)) := by
+    ¬ (∀ (s : Serde Bool Bool) (T : Api → Opts Unit → Rec Bool → Rec Bool) (o : Opts Unit) (M : Rec Bool),
+        (protoPath s T (.rewrite true) o M).result = s.ser ((irPath T (.rewrite true) o (s.de M)).result)) := by
   intro h
-  have := congrFun (h ⟨id, fun _ _ => false, false⟩ (fun _ m => m) (fun _ => true)) Carrier.producerName
+  have := congrFun (h ⟨id, fun _ _ => false, false, fun M _ => M⟩ (fun _ _ m => m) (fun _ => ()) (fun _ => true)) Carrier.producerName
   revert this; decide
 
 /-! ### convert_version: the proto is edited surgically -/
@@ -82,11 +98,11 @@ theorem rewrite_empty_full_refuted :
 (a) on every carrier the branch does not assign (`ir_version`, producer, domain, model version, doc,
 model metadata, `training_info`) the serialised IR result has the caller's own value, and (b) the IR result has
 no functions left (the branch deletes them instead of copying them). -/
-theorem convert_proto_eq_ir_iff (s : Serde P I) (T : Api → Rec I → Rec I) (M : Rec P) :
-    (protoPath s T .convertVersion M).result = s.ser ((irPath T .convertVersion (s.de M)).result)
-      ↔ ((∀ c, keptByConvert c = true → s.ser (T .convertVersion (s.de M)) c = M c)
-          ∧ s.ser (T .convertVersion (s.de M)) .functions = s.empty) := by
-  show spliceConverted s.empty M (s.ser (T .convertVersion (s.de M))) = s.ser (T .convertVersion (s.de M)) ↔ _
+theorem convert_proto_eq_ir_iff (s : Serde P I) (T : Api → Opts W → Rec I → Rec I) (o : Opts W) (M : Rec P) :
+    (protoPath s T .convertVersion o M).result = s.ser ((irPath T .convertVersion o (s.de M)).result)
+      ↔ ((∀ c, keptByConvert c = true → s.ser (T .convertVersion (forward .convertVersion .proto o) (s.de M)) c = M c)
+          ∧ s.ser (T .convertVersion (forward .convertVersion .proto o) (s.de M)) .functions = s.empty) := by
+  show spliceConverted s.empty M (s.ser (T .convertVersion (forward .convertVersion .proto o) (s.de M))) = s.ser (T .convertVersion (forward .convertVersion .proto o) (s.de M)) ↔ _
   constructor
   · intro h
     refine ⟨fun c hc => ?_, ?_⟩
@@ -103,122 +119,122 @@ theorem convert_proto_eq_ir_iff (s : Serde P I) (T : Api → Rec I → Rec I) (M
 an input that is normal on the carriers the branch keeps, and the inliner's contract that no model-local
 function survives.  (After fix 4aa0d5c; before it the statement failed on `opset_import` even so —
 `convert_old_branch_refuted`.) -/
-theorem convert_proto_eq_ir_partial (s : Serde P I) (T : Api → Rec I → Rec I) (M : Rec P)
+theorem convert_proto_eq_ir_partial (s : Serde P I) (T : Api → Opts W → Rec I → Rec I) (o : Opts W) (M : Rec P)
     (hframe : FrameOK s T .convertVersion)
     (hnormal : ∀ c, keptByConvert c = true → s.N M c = M c)
-    (hfun : s.ser (T .convertVersion (s.de M)) .functions = s.empty) :
-    (protoPath s T .convertVersion M).result = s.ser ((irPath T .convertVersion (s.de M)).result) := by
+    (hfun : s.ser (T .convertVersion (forward .convertVersion .proto o) (s.de M)) .functions = s.empty) :
+    (protoPath s T .convertVersion o M).result = s.ser ((irPath T .convertVersion o (s.de M)).result) := by
   rw [convert_proto_eq_ir_iff]
   refine ⟨fun c hc => ?_, hfun⟩
-  rw [hframe (s.de M) c (by cases c <;> simp_all [keptByConvert, touches, Carrier.inGraph])]
+  rw [hframe _ (s.de M) c (by cases c <;> simp_all [keptByConvert, touches, Carrier.inGraph])]
   exact hnormal c hc
 
 /-- Non-vacuity: the identity serde with a transformation that edits exactly its frame and empties the
 functions satisfies all three hypotheses on a non-constant model. -/
-example : ∃ (s : Serde Nat Nat) (T : Api → Rec Nat → Rec Nat) (M : Rec Nat),
+example : ∃ (s : Serde Nat Nat) (T : Api → Opts Unit → Rec Nat → Rec Nat) (o : Opts Unit) (M : Rec Nat),
     FrameOK s T .convertVersion ∧ (∀ c, keptByConvert c = true → s.N M c = M c) ∧
-    s.ser (T .convertVersion (s.de M)) .functions = s.empty ∧ M .irVersion ≠ M .nodes ∧
-    T .convertVersion (s.de M) .nodes ≠ M .nodes :=
-  ⟨⟨id, id, 0⟩, fun f m c => if c = .functions then 0 else if touches f c then m c + 1 else m c,
-    fun c => if c = .irVersion then 10 else 3,
-    by intro m c h; cases c <;> simp_all [touches], by intro c _; rfl, by decide, by decide, by decide⟩
+    s.ser (T .convertVersion (forward .convertVersion .proto o) (s.de M)) .functions = s.empty ∧ M .irVersion ≠ M .nodes ∧
+    T .convertVersion (forward .convertVersion .proto o) (s.de M) .nodes ≠ M .nodes :=
+  ⟨⟨id, id, 0, fun M _ => M⟩, fun f _ m c => if c = .functions then 0 else if touches f c then m c + 1 else m c,
+    fun _ => (), fun c => if c = .irVersion then 10 else 3,
+    by intro o m c h; cases c <;> simp_all [touches], by intro c _; rfl, by decide, by decide, by decide⟩
 
 /-- For an input that already went through serde once the normality hypothesis is discharged by the
 idempotence of `N`. -/
-theorem convert_proto_eq_ir_on_normalised (s : Serde P I) (T : Api → Rec I → Rec I) {Incl : P → P → Prop}
+theorem convert_proto_eq_ir_on_normalised (s : Serde P I) (T : Api → Opts W → Rec I → Rec I) (o : Opts W) {Incl : P → P → Prop}
     (hc : SerdeContract s Incl) (M : Rec P) (hframe : FrameOK s T .convertVersion)
-    (hfun : s.ser (T .convertVersion (s.de (s.N M))) .functions = s.empty) :
-    (protoPath s T .convertVersion (s.N M)).result
-      = s.ser ((irPath T .convertVersion (s.de (s.N M))).result) :=
-  convert_proto_eq_ir_partial s T (s.N M) hframe (fun c _ => by rw [hc.idem M]) hfun
+    (hfun : s.ser (T .convertVersion (forward .convertVersion .proto o) (s.de (s.N M))) .functions = s.empty) :
+    (protoPath s T .convertVersion o (s.N M)).result
+      = s.ser ((irPath T .convertVersion o (s.de (s.N M))).result) :=
+  convert_proto_eq_ir_partial s T o (s.N M) hframe (fun c _ => by rw [hc.idem M]) hfun
 
 /-- Without the normality hypothesis the statement is false (real counterpart: a proto whose
 `metadata_props` are not sorted or which sets `producer_name = ""` explicitly — `convert_version` keeps
 the caller's bytes, the IR entry re-serialises them; equal as maps, not as bytes). -/
 theorem convert_proto_eq_ir_full_refuted :
-    ¬ (∀ (s : Serde Bool Bool) (T : Api → Rec Bool → Rec Bool) (M : Rec Bool),
-        FrameOK s T .convertVersion → s.ser (T .convertVersion (s.de M)) .functions = s.empty →
-        (protoPath s T .convertVersion M).result = s.ser ((irPath T .convertVersion (s.de M)).result)) := by
+    ¬ (∀ (s : Serde Bool Bool) (T : Api → Opts Unit → Rec Bool → Rec Bool) (o : Opts Unit) (M : Rec Bool),
+        FrameOK s T .convertVersion → s.ser (T .convertVersion (forward .convertVersion .proto o) (s.de M)) .functions = s.empty →
+        (protoPath s T .convertVersion o M).result = s.ser ((irPath T .convertVersion o (s.de M)).result)) := by
   intro h
-  have := congrFun (h ⟨id, fun _ _ => false, false⟩ (fun _ m => m) (fun _ => true)
-    (fun _ _ _ => rfl) rfl) Carrier.producerName
+  have := congrFun (h ⟨id, fun _ _ => false, false, fun M _ => M⟩ (fun _ _ m => m) (fun _ => ()) (fun _ => true)
+    (fun _ _ _ _ => rfl) rfl) Carrier.producerName
   revert this; decide
 
 /-- **D9 (fixed by 4aa0d5c).**  The branch as it was — graph copied back, functions deleted, nothing
 else — violates the property even on normal inputs with a well-behaved pass: the IR entry updates
 `opset_import`, the old proto entry kept the caller's. -/
 theorem convert_old_branch_refuted :
-    ¬ (∀ (s : Serde Nat Nat) (T : Api → Rec Nat → Rec Nat) (M : Rec Nat),
+    ¬ (∀ (s : Serde Nat Nat) (T : Api → Opts Unit → Rec Nat → Rec Nat) (o : Opts Unit) (M : Rec Nat),
         FrameOK s T .convertVersion → (∀ c, keptByConvert c = true → s.N M c = M c) →
-        s.ser (T .convertVersion (s.de M)) .functions = s.empty →
-        (protoConvertOld s T M).result = s.ser ((irPath T .convertVersion (s.de M)).result)) := by
+        s.ser (T .convertVersion (forward .convertVersion .proto o) (s.de M)) .functions = s.empty →
+        (protoConvertOld s T o M).result = s.ser ((irPath T .convertVersion o (s.de M)).result)) := by
   intro h
-  have := congrFun (h ⟨id, id, 0⟩ (fun _ m c => if c = .opsetImports then 21 else m c)
-    (fun c => if c = .opsetImports then 18 else 0)
-    (by intro m c hc; cases c <;> simp_all [touches]) (fun _ _ => rfl) (by decide)) Carrier.opsetImports
+  have := congrFun (h ⟨id, id, 0, fun M _ => M⟩ (fun _ _ m c => if c = .opsetImports then 21 else m c)
+    (fun _ => ()) (fun c => if c = .opsetImports then 18 else 0)
+    (by intro o m c hc; cases c <;> simp_all [touches]) (fun _ _ => rfl) (by decide)) Carrier.opsetImports
   revert this; decide
 
 /-! ## 2. What the transformation does not touch survives -/
 
 /-- **Whole-model wrappers**: every carrier outside the API's frame has, in the proto result, exactly
 the content the normaliser gives it — the wrapper itself loses nothing. -/
-theorem untouched_kept (s : Serde P I) (T : Api → Rec I → Rec I) (f : Api) (hf : f.wholesale = true)
+theorem untouched_kept (s : Serde P I) (T : Api → Opts W → Rec I → Rec I) (o : Opts W) (f : Api) (hf : f.wholesale = true)
     (hframe : FrameOK s T f) (M : Rec P) (c : Carrier) (hc : touches f c = false) :
-    (protoPath s T f M).result c = s.N M c := by
-  rw [proto_eq_ir s T f hf M]
+    (protoPath s T f o M).result c = s.N M c := by
+  rw [proto_eq_ir s T o f hf M]
   cases f with
-  | rewrite e => cases e <;> first | exact hframe (s.de M) c hc | simp [Api.wholesale] at hf
+  | rewrite e => cases e <;> first | exact hframe _ (s.de M) c hc | simp [Api.wholesale] at hf
   | convertVersion => simp [Api.wholesale] at hf
-  | _ => exact hframe (s.de M) c hc
+  | _ => exact hframe _ (s.de M) c hc
 
 example : touches .optimize .metadataProps = false ∧ touches .foldConstants .opsetImports = false ∧
     touches .removeUnusedFunctions .initializers = false ∧ touches .optimize .nodes = true := by decide
 
 /-- … and therefore everything populated in the caller's model on such a carrier is in the result
 (`Incl`: the serde contract's per-carrier inclusion). -/
-theorem untouched_survives (s : Serde P I) (T : Api → Rec I → Rec I) {Incl : P → P → Prop}
+theorem untouched_survives (s : Serde P I) (T : Api → Opts W → Rec I → Rec I) (o : Opts W) {Incl : P → P → Prop}
     (hs : SerdeContract s Incl) (f : Api) (hf : f.wholesale = true) (hframe : FrameOK s T f)
     (M : Rec P) (c : Carrier) (hc : touches f c = false) :
-    Incl (M c) ((protoPath s T f M).result c) := by
-  rw [untouched_kept s T f hf hframe M c hc]; exact hs.incl M c
+    Incl (M c) ((protoPath s T f o M).result c) := by
+  rw [untouched_kept s T o f hf hframe M c hc]; exact hs.incl M c
 
 /-- `convert_version` on a proto: the carriers outside `graph`, `functions`, `opset_import` keep the
 **caller's own content** (not the normaliser's — they are never re-serialised) … -/
-theorem untouched_kept_convert_model_level (s : Serde P I) (T : Api → Rec I → Rec I) (M : Rec P)
+theorem untouched_kept_convert_model_level (s : Serde P I) (T : Api → Opts W → Rec I → Rec I) (o : Opts W) (M : Rec P)
     (c : Carrier) (hc : keptByConvert c = true) :
-    (protoPath s T .convertVersion M).result c = M c := by
+    (protoPath s T .convertVersion o M).result c = M c := by
   show spliceConverted s.empty M _ c = M c
   cases c <;> simp_all [spliceConverted, keptByConvert, Carrier.inGraph]
 
 /-- … the graph-level carriers outside the frame (name, doc, inputs, outputs, graph metadata, quantization annotations) come from the
 re-serialised graph and equal the normaliser's content … -/
-theorem untouched_kept_convert_graph_level (s : Serde P I) (T : Api → Rec I → Rec I) (M : Rec P)
+theorem untouched_kept_convert_graph_level (s : Serde P I) (T : Api → Opts W → Rec I → Rec I) (o : Opts W) (M : Rec P)
     (hframe : FrameOK s T .convertVersion) (c : Carrier) (hg : c.inGraph = true)
     (hc : touches .convertVersion c = false) :
-    (protoPath s T .convertVersion M).result c = s.N M c := by
-  have h := hframe (s.de M) c hc
+    (protoPath s T .convertVersion o M).result c = s.N M c := by
+  have h := hframe (forward .convertVersion .proto o) (s.de M) c hc
   show spliceConverted s.empty M _ c = s.ser (s.de M) c
   rw [← h]
   cases c <;> simp_all [spliceConverted, Carrier.inGraph]
 
 /-- … and `functions` is emptied whatever the IR result holds. -/
-theorem convert_deletes_functions (s : Serde P I) (T : Api → Rec I → Rec I) (M : Rec P) :
-    (protoPath s T .convertVersion M).result .functions = s.empty := rfl
+theorem convert_deletes_functions (s : Serde P I) (T : Api → Opts W → Rec I → Rec I) (o : Opts W) (M : Rec P) :
+    (protoPath s T .convertVersion o M).result .functions = s.empty := rfl
 
 /-- `rewrite(model, [])`: every carrier is the caller's, bit for bit. -/
-theorem untouched_kept_rewrite_empty (s : Serde P I) (T : Api → Rec I → Rec I) (M : Rec P) (c : Carrier) :
-    (protoPath s T (.rewrite true) M).result c = M c := rfl
+theorem untouched_kept_rewrite_empty (s : Serde P I) (T : Api → Opts W → Rec I → Rec I) (o : Opts W) (M : Rec P) (c : Carrier) :
+    (protoPath s T (.rewrite true) o M).result c = M c := rfl
 
 /-- Every carrier is classified: for each API a carrier of the proto result is either inside the frame,
 or pinned to `N M`, or pinned to `M` — nothing is left unspecified. -/
-theorem every_carrier_accounted (s : Serde P I) (T : Api → Rec I → Rec I) (f : Api) (hframe : FrameOK s T f)
+theorem every_carrier_accounted (s : Serde P I) (T : Api → Opts W → Rec I → Rec I) (o : Opts W) (f : Api) (hframe : FrameOK s T f)
     (M : Rec P) (c : Carrier) :
-    touches f c = true ∨ (protoPath s T f M).result c = s.N M c ∨ (protoPath s T f M).result c = M c := by
+    touches f c = true ∨ (protoPath s T f o M).result c = s.N M c ∨ (protoPath s T f o M).result c = M c := by
   by_cases ht : touches f c = true
   · exact Or.inl ht
   · have ht' : touches f c = false := by simpa using ht
     by_cases hw : f.wholesale = true
-    · exact Or.inr (Or.inl (untouched_kept s T f hw hframe M c ht'))
+    · exact Or.inr (Or.inl (untouched_kept s T o f hw hframe M c ht'))
     · cases f with
       | rewrite e =>
         cases e
@@ -226,8 +242,8 @@ theorem every_carrier_accounted (s : Serde P I) (T : Api → Rec I → Rec I) (f
         · exact Or.inr (Or.inr rfl)
       | convertVersion =>
         by_cases hk : keptByConvert c = true
-        · exact Or.inr (Or.inr (untouched_kept_convert_model_level s T M c hk))
-        · refine Or.inr (Or.inl (untouched_kept_convert_graph_level s T M hframe c ?_ ht'))
+        · exact Or.inr (Or.inr (untouched_kept_convert_model_level s T o M c hk))
+        · refine Or.inr (Or.inl (untouched_kept_convert_graph_level s T o M hframe c ?_ ht'))
           cases c <;> simp_all [keptByConvert, touches, Carrier.inGraph]
       | _ => simp [Api.wholesale] at hw
 
@@ -235,10 +251,10 @@ theorem every_carrier_accounted (s : Serde P I) (T : Api → Rec I → Rec I) (f
 
 /-- **In-place variants on a proto** (`fold_constants`, `remove_unused_nodes`, `remove_unused_functions`,
 `convert_version`): no model is returned; the caller's object holds the result. -/
-theorem inplace_variants_mutate_argument (s : Serde P I) (T : Api → Rec I → Rec I) (f : Api)
+theorem inplace_variants_mutate_argument (s : Serde P I) (T : Api → Opts W → Rec I → Rec I) (o : Opts W) (f : Api)
     (hf : f.inPlaceOnProto = true) (M : Rec P) :
-    (protoPath s T f M).result = (protoPath s T f M).argAfter ∧
-    (showRet (protoPath s T f M).ret = "none" ∨ showRet (protoPath s T f M).ret = "aux") := by
+    (protoPath s T f o M).result = (protoPath s T f o M).argAfter ∧
+    (showRet (protoPath s T f o M).ret = "none" ∨ showRet (protoPath s T f o M).ret = "aux") := by
   cases f with
   | rewrite e => simp [Api.inPlaceOnProto] at hf
   | optimize => simp [Api.inPlaceOnProto] at hf
@@ -246,24 +262,54 @@ theorem inplace_variants_mutate_argument (s : Serde P I) (T : Api → Rec I → 
   | foldConstants => exact ⟨rfl, Or.inr rfl⟩
   | _ => exact ⟨rfl, Or.inl rfl⟩
 
-/-- **The other variants on a proto** (`optimize`, `rewrite`, `replace_functions`): the caller's proto
-is left exactly as it was; the result is a fresh object, or (empty rule list) the argument itself. -/
-theorem pure_variants_leave_argument (s : Serde P I) (T : Api → Rec I → Rec I) (f : Api)
+/-- A serde that copies what it reads: transforming the IR model never writes through to the proto it
+was deserialised from.  (Refuted for the installed `onnx_ir` by finding C15-ALIAS: `TensorProtoTensor`
+wraps the caller's `TensorProto` and its `name` setter writes through.) -/
+def NoAlias (s : Serde P I) : Prop := ∀ (M : Rec P) (m' : Rec I), s.writeBack M m' = M
+
+/-- **The other variants on a proto** (`optimize`, `rewrite`, `replace_functions`): the wrapper itself
+never assigns to the caller's proto — whatever happens to it is the serde's write-through — and the
+result is a fresh object, or (empty rule list) the argument itself. -/
+theorem pure_variants_never_assign (s : Serde P I) (T : Api → Opts W → Rec I → Rec I) (o : Opts W) (f : Api)
     (hf : f.inPlaceOnProto = false) (M : Rec P) :
-    (protoPath s T f M).argAfter = M ∧
-    (showRet (protoPath s T f M).ret = "fresh" ∨
-      (f = .rewrite true ∧ showRet (protoPath s T f M).ret = "arg")) := by
+    ((protoPath s T f o M).argAfter = M ∨
+      (protoPath s T f o M).argAfter = s.writeBack M (T f (forward f .proto o) (s.de M))) ∧
+    (showRet (protoPath s T f o M).ret = "fresh" ∨
+      (f = .rewrite true ∧ showRet (protoPath s T f o M).ret = "arg")) := by
   cases f with
   | rewrite e => cases e <;> simp [protoPath, showRet]
-  | optimize => exact ⟨rfl, Or.inl rfl⟩
-  | replaceFunctions => exact ⟨rfl, Or.inl rfl⟩
+  | optimize => exact ⟨Or.inr rfl, Or.inl rfl⟩
+  | replaceFunctions => exact ⟨Or.inr rfl, Or.inl rfl⟩
   | _ => simp [Api.inPlaceOnProto] at hf
+
+/-- **… leave their argument unchanged** — `_partial`: under `NoAlias`, the hypothesis the proof forces. -/
+theorem pure_variants_leave_argument_partial (s : Serde P I) (T : Api → Opts W → Rec I → Rec I) (o : Opts W)
+    (f : Api) (hf : f.inPlaceOnProto = false) (hna : NoAlias s) (M : Rec P) :
+    (protoPath s T f o M).argAfter = M := by
+  cases f with
+  | rewrite e => cases e <;> first | rfl | exact hna M _
+  | optimize => exact hna M _
+  | replaceFunctions => exact hna M _
+  | _ => simp [Api.inPlaceOnProto] at hf
+
+example : NoAlias (⟨id, id, 0, fun M _ => M⟩ : Serde Nat Nat) := fun _ _ => rfl
+
+/-- The full statement (no `NoAlias`) is false: with a serde that writes through, `optimize(proto)`
+changes the proto it was given.  Real counterpart (finding C15-ALIAS): `optimize` on a model with a
+`Constant` node — the caller's attribute `TensorProto.name` changes from `''` to the value name. -/
+theorem pure_variants_leave_argument_full_refuted :
+    ¬ (∀ (s : Serde Bool Bool) (T : Api → Opts Unit → Rec Bool → Rec Bool) (o : Opts Unit) (f : Api),
+        f.inPlaceOnProto = false → ∀ M : Rec Bool, (protoPath s T f o M).argAfter = M) := by
+  intro h
+  have := congrFun (h ⟨id, id, false, fun _ _ _ => false⟩ (fun _ _ m => m) (fun _ => ()) .optimize rfl
+    (fun _ => true)) Carrier.nodes
+  revert this; decide
 
 /-- **IR entry**: always in place — the `ir.Model` passed in holds the result, no fresh model is ever
 built; `optimize` and `rewrite` additionally return that same object. -/
-theorem ir_entry_in_place (T : Api → Rec I → Rec I) (f : Api) (m : Rec I) :
-    (irPath T f m).result = (irPath T f m).argAfter ∧ showRet (irPath T f m).ret ≠ "fresh" ∧
-    ((f = .optimize ∨ ∃ e, f = .rewrite e) → showRet (irPath T f m).ret = "arg") := by
+theorem ir_entry_in_place (T : Api → Opts W → Rec I → Rec I) (o : Opts W) (f : Api) (m : Rec I) :
+    (irPath T f o m).result = (irPath T f o m).argAfter ∧ showRet (irPath T f o m).ret ≠ "fresh" ∧
+    ((f = .optimize ∨ ∃ e, f = .rewrite e) → showRet (irPath T f o m).ret = "arg") := by
   cases f with
   | rewrite e => cases e <;> exact ⟨rfl, by simp [irPath, showRet], fun _ => rfl⟩
   | optimize => exact ⟨rfl, by simp [irPath, showRet], fun _ => rfl⟩
